@@ -156,7 +156,7 @@ func parseIndexSection(sectionContents []byte, sectionsStart uint64, sos []secti
 	}
 	respSectionOffset := sectionsStart + respSectionRelOffset
 	makeRelativeToStream := func(offset, length uint64) (uint64, uint64, error) {
-		if offset+length > respso.Length {
+		if offset > respso.Length || length > respso.Length-offset {
 			return 0, 0, errors.New("bundle.index: response length out-of-range")
 		}
 		return respSectionOffset + offset, length, nil
@@ -217,7 +217,7 @@ func parseIndexSectionWithVariants(sectionContents []byte, sectionsStart uint64,
 	}
 	respSectionOffset := sectionsStart + respSectionRelOffset
 	makeRelativeToStream := func(offset, length uint64) (uint64, uint64, error) {
-		if offset+length > respso.Length {
+		if offset > respso.Length || length > respso.Length-offset {
 			return 0, 0, errors.New("bundle.index: response length out-of-range")
 		}
 		return respSectionOffset + offset, length, nil
@@ -498,21 +498,22 @@ func loadMetadata(bs []byte) (*meta, error) {
 	offset := sectionsStart
 
 	for _, so := range sos {
+		// Every section, known or not and including "responses", must lie
+		// inside the input. Compare against the remaining size so that the
+		// addition below cannot wrap around.
+		if uint64(len(bs)) < offset || so.Length > uint64(len(bs))-offset {
+			return nil, &LoadMetadataError{fmt.Errorf("bundle: section %q (offset %d, length %d) out-of-range.", so.Name, offset, so.Length), FormatError, fallbackURL}
+		}
+		end := offset + so.Length
 		if _, exists := knownSections[so.Name]; !exists {
 			// Step over the unknown section so that the following sections are
 			// still found at their own offsets.
-			offset += so.Length
+			offset = end
 			continue
 		}
 		if so.Name == "responses" {
+			offset = end
 			continue
-		}
-		if uint64(len(bs)) <= offset {
-			return nil, &LoadMetadataError{fmt.Errorf("bundle: section %q's computed offset %q out-of-range.", so.Name, offset), FormatError, fallbackURL}
-		}
-		end := offset + so.Length
-		if uint64(len(bs)) <= end {
-			return nil, &LoadMetadataError{fmt.Errorf("bundle: section %q's end %q out-of-range.", so.Name, end), FormatError, fallbackURL}
 		}
 
 		sectionContents := bs[offset:end]
